@@ -95,6 +95,10 @@ structure Case where
   /-- faults whose handle was cancelled before the `Simulation` was built (a subset of the faults
       with `cancelled = true`; only used to name the trigger in a judge signature) -/
   preCanc : List Nat := []
+  /-- the transcript is that of a second run, after `sim.control.reset()`: the model starts it from
+      its initial state (reset re-arms the fault schedule and undoes what open windows changed); the
+      harness reports whether it repeats the first run -/
+  rerun : Bool := false
 deriving Repr
 
 def Case.baseLat (c : Case) (a b : Nat) : Nat :=
